@@ -328,6 +328,7 @@ pub fn run_c05(args: &Args, tier: &str, seed: u64) -> Report {
             ("bytes12", "thorough") => 7,
             ("bytes12", _) => 41,
             ("pairs", _) => 1,
+            ("strings", _) => 1,
             ("chains", "thorough") => 1,
             ("chains", _) => 3,
             ("mutations", "thorough") => 4,
